@@ -61,12 +61,30 @@ def case_rng(seed, prop, index):
 # build + audit
 # ---------------------------------------------------------------------------------------------
 
-def _locked(cmd, timeout=3000):
+def _limit_memory():
+    """a proof that needs more than 40 GB of address space is a broken proof, not a reason to take the machine down"""
+    import resource
+    lim = 40 * 1024 * 1024 * 1024
+    try:
+        resource.setrlimit(resource.RLIMIT_AS, (lim, lim))
+    except (ValueError, OSError):
+        pass
+
+
+class _Proc(object):
+    def __init__(self, returncode, stdout):
+        self.returncode, self.stdout = returncode, stdout
+
+
+def _locked(cmd, timeout=1500):
     lock = open(os.path.join(LEAN_DIR, ".build.lock"), "w")
     fcntl.flock(lock, fcntl.LOCK_EX)
     try:
-        return subprocess.run(cmd, cwd=LEAN_DIR, stdout=subprocess.PIPE, stderr=subprocess.STDOUT,
-                              timeout=timeout)
+        try:
+            return subprocess.run(cmd, cwd=LEAN_DIR, stdout=subprocess.PIPE, stderr=subprocess.STDOUT,
+                                  timeout=timeout, preexec_fn=_limit_memory)
+        except subprocess.TimeoutExpired as e:
+            return _Proc(124, (e.stdout or b"") + b"\nerror: build timed out after %d s" % timeout)
     finally:
         fcntl.flock(lock, fcntl.LOCK_UN)
         lock.close()
